@@ -6,7 +6,9 @@
 use serde_json::{json, Value};
 use std::panic;
 
+mod bdd;
 mod ff;
+mod table;
 
 pub type CaseResult = Result<(), String>;
 
@@ -14,6 +16,8 @@ pub fn run_case(c: &Value) -> CaseResult {
     let kind = c["case"].as_str().unwrap_or("");
     let r = panic::catch_unwind(|| match kind {
         k if k.starts_with("ff_") => ff::run(c),
+        "table_seq" => table::run(c),
+        "bdd_prog" => bdd::run(c),
         _ => Err(format!("unknown case kind {kind}")),
     });
     match r {
@@ -58,6 +62,8 @@ fn main() {
             let hint: Option<Value> = arg_after(&args, "--hint").and_then(|h| serde_json::from_str(&h).ok());
             let cases: Vec<Value> = match key.as_str() {
                 "ff" => ff::candidates(&function, &obligation, seed, hint.as_ref()),
+                "table" => table::candidates(seed),
+                "bdd" => bdd::candidates(&function, seed),
                 _ => vec![],
             };
             let mut tried = 0usize;
